@@ -87,12 +87,13 @@ def LexSt.fresh (st : LexSt) : Nat × LexSt :=
 def lexLineComment (comments : Bool) (st : LexSt) (line : Str) : LexSt × Str :=
   match findLineComment none line with
   | none => (st, line)
-  | some (_, tail) =>
-    let (cm, _) := dropFinalNl tail
+  | some (before, tail) =>
+    let (cm, nl) := dropFinalNl tail
     -- `.` does not match `\n`: the comment ends at the first `\n`; inside a `splitlines` line a `\n` can only be last
     let (i, st) := st.fresh
     let ph := if comments then kwLine ++ padSix i else []
-    ({ st with lineC := st.lineC.set i cm }, replaceAll cm ph line)
+    -- the matched comment itself is replaced (`line[:m.start()] + placeholder + line[m.end():]`)
+    ({ st with lineC := st.lineC.set i cm }, before ++ ph ++ nl)
 
 /-- `_extract_includes` on one line; `dir` is the directory of the file being parsed (for the path entry) -/
 def lexInclude (dir : Str) (st : LexSt) (line : Str) : LexSt × Str :=
